@@ -21,6 +21,7 @@ import (
 	"go/types"
 	"regexp"
 	"sort"
+	"strconv"
 	"strings"
 
 	"golang.org/x/tools/go/ssa"
@@ -1552,6 +1553,116 @@ func goImportsUsed(w *World, wc *wireCtx, r *Report, prop string) {
 		return out
 	}
 	n := 0
+	headerFns := map[*ssa.Function]bool{} // functions that decide about imports by scanning a text handed to them
+	defer func() {
+		// the text that is scanned for uses is the text of the whole file: header(X) is followed by exactly X and nothing is added
+		// behind it (declarations appended after the header was computed are not covered by its imports)
+		for _, hf := range sortedFuncs(headerFns) {
+			pidx := -1
+			forEachInstr(hf, func(_ *ssa.BasicBlock, ins ssa.Instruction) {
+				c, ok := ins.(*ssa.Call)
+				if !ok || c.Call.StaticCallee() == nil || c.Call.StaticCallee().String() != "strings.Contains" || len(c.Call.Args) != 2 {
+					return
+				}
+				for i, q := range hf.Params {
+					if stripIdentity(c.Call.Args[0]) == ssa.Value(q) {
+						pidx = i
+					}
+				}
+			})
+			if pidx < 0 {
+				continue
+			}
+			nSites := 0
+			for _, fn := range own {
+				forEachInstr(fn, func(_ *ssa.BasicBlock, ins ssa.Instruction) {
+					c, ok := ins.(*ssa.Call)
+					if !ok || c.Call.StaticCallee() != hf || pidx >= len(c.Call.Args) {
+						return
+					}
+					nSites++
+					key := fmt.Sprintf("%s: the imports are chosen from the text of the whole file #%d", fnKey(fn), nSites)
+					x := c.Call.Args[pidx]
+					sameText := func(a, b ssa.Value) bool {
+						a, b = stripIdentity(a), stripIdentity(b)
+						if a == b {
+							return true
+						}
+						// two String() calls on one builder with nothing written in between
+						ca, ok1 := a.(*ssa.Call)
+						cb, ok2 := b.(*ssa.Call)
+						if !ok1 || !ok2 || ca.Call.StaticCallee() == nil || cb.Call.StaticCallee() == nil {
+							return false
+						}
+						if ca.Call.StaticCallee().String() != "(*strings.Builder).String" || cb.Call.StaticCallee().String() != "(*strings.Builder).String" {
+							return false
+						}
+						if stripIdentity(ca.Call.Args[0]) != stripIdentity(cb.Call.Args[0]) || ca.Block() != cb.Block() {
+							return false
+						}
+						lo, hi := indexIn(ca), indexIn(cb)
+						if lo > hi {
+							lo, hi = hi, lo
+						}
+						for _, mid := range ca.Block().Instrs[lo+1 : hi] {
+							if mc, ok := mid.(ssa.CallInstruction); ok {
+								if f := mc.Common().StaticCallee(); f != nil && strings.HasPrefix(f.String(), "(*strings.Builder).Write") {
+									return false
+								}
+							}
+						}
+						return true
+					}
+					why := ""
+					if c.Referrers() == nil {
+						why = "the header is not used"
+					} else {
+						for _, ref := range *c.Referrers() {
+							bo, ok := ref.(*ssa.BinOp)
+							if !ok || bo.Op != token.ADD || bo.X != ssa.Value(c) {
+								if _, isDbg := ref.(*ssa.DebugRef); !isDbg {
+									why = "the header is used other than as the head of header + text (" + instrKind(ref) + ")"
+								}
+								continue
+							}
+							if !sameText(bo.Y, x) {
+								why = "the text that follows the header is not the text the header was computed from"
+								continue
+							}
+							// nothing is appended behind header + text
+							var grows func(v ssa.Value, depth int) string
+							grows = func(v ssa.Value, depth int) string {
+								if depth > 4 || v.Referrers() == nil {
+									return ""
+								}
+								for _, r2 := range *v.Referrers() {
+									switch y := r2.(type) {
+									case *ssa.BinOp:
+										if y.Op == token.ADD && y.X == v {
+											return w.instrPos(y)
+										}
+									case *ssa.Phi:
+										if g := grows(y, depth+1); g != "" {
+											return g
+										}
+									}
+								}
+								return ""
+							}
+							if at := grows(bo, 0); at != "" {
+								why = "more text is appended behind header + text (at " + at + "): what it uses is not covered by the imports"
+							}
+						}
+					}
+					if why == "" {
+						r.pass(rule, key, w.instrPos(c), "")
+					} else {
+						r.fail(rule, key, w.instrPos(c), why+" - a file whose only qualified uses sit in the uncovered part is rejected by the Go compiler (undefined: codec / binary)")
+					}
+				})
+			}
+		}
+	}()
 	for _, p := range pieces {
 		// a whole import block in one constant, or a single import line (a block assembled line by line)
 		var lines []string
@@ -1591,6 +1702,7 @@ func goImportsUsed(w *World, wc *wireCtx, r *Report, prop string) {
 			}
 			if condOK {
 				r.pass(rule, key, w.instrPos(p.ins), "emitted only when the generated code contains "+name+".")
+				headerFns[p.fn] = true
 				continue
 			}
 			// (b) some use is emitted whenever the emitter of the import runs
@@ -1620,5 +1732,333 @@ func goImportsUsed(w *World, wc *wireCtx, r *Report, prop string) {
 	}
 	if n == 0 {
 		r.fail(rule, "import blocks found", "internal/parser/go_generator.go", "no constant import block found in the Go emitters")
+	}
+}
+
+// */list-endian-unconditional: in a list cell the byte-order flavour of an emitted name is a function of LittleEndian alone.
+//
+// The accessors of a repeated field (put_list / get_list, put_string_list, WriteBasicTypeListLE ...) write the element count, the
+// elements and, for strings, each element's length prefix; their little-endian variant governs all of them. "A single byte has no
+// byte order" is true of a scalar u8, not of a list whose count (or whose elements, or whose string prefixes) is wider: a helper
+// that drops the `_le` flavour when *one* of the types involved is a single byte makes the list come out big-endian in part, while
+// every other language - and the same language's scalar fields - stay little-endian. Decided: for every string piece of an emission
+// in a list-only cell, the strings the piece can be with LittleEndian set and the strings it can be without are either the same set
+// (the piece does not depend on the byte order) or disjoint (constants, phis and parser helpers evaluated under each assumption;
+// pieces the evaluator cannot enumerate are not judged).
+func wireListEndianUnconditional(w *World, wc *wireCtx, r *Report, prop string) {
+	rule := prop + "/list-endian-unconditional"
+	isLELoad := func(v ssa.Value) bool {
+		v = stripIdentity(v)
+		switch x := v.(type) {
+		case *ssa.UnOp:
+			if fa, ok := x.X.(*ssa.FieldAddr); ok && x.Op == token.MUL {
+				tn, f, _, _ := fieldOf(fa)
+				return tn == "Configuration" && f == "LittleEndian"
+			}
+		case *ssa.Field:
+			tn, f, _, _ := fieldOf(x)
+			return tn == "Configuration" && f == "LittleEndian"
+		}
+		return false
+	}
+	// excluded: block b cannot execute under the assumption LittleEndian == le
+	excluded := func(b *ssa.BasicBlock, le bool) bool {
+		for _, bb := range b.Parent().Blocks {
+			cond := branchCond(bb)
+			if cond == nil {
+				continue
+			}
+			neg := false
+			c := cond
+			for {
+				if u, ok := c.(*ssa.UnOp); ok && u.Op == token.NOT {
+					neg = !neg
+					c = u.X
+					continue
+				}
+				break
+			}
+			if !isLELoad(c) {
+				continue
+			}
+			// successor taken when LittleEndian is true
+			trueSucc := 0
+			if neg {
+				trueSucc = 1
+			}
+			wrong := 1 - trueSucc
+			if !le {
+				wrong = trueSucc
+			}
+			if edgeDominates(bb, wrong, b) {
+				return true
+			}
+		}
+		return false
+	}
+	// excludedEdge: the edge from -> to is the branch of a LittleEndian test that the assumption rules out
+	excludedEdge := func(from, to *ssa.BasicBlock, le bool) bool {
+		cond := branchCond(from)
+		if cond == nil || len(from.Succs) != 2 || from.Succs[0] == from.Succs[1] {
+			return false
+		}
+		neg := false
+		c := cond
+		for {
+			if u, ok := c.(*ssa.UnOp); ok && u.Op == token.NOT {
+				neg = !neg
+				c = u.X
+				continue
+			}
+			break
+		}
+		if !isLELoad(c) {
+			return false
+		}
+		trueSucc := 0
+		if neg {
+			trueSucc = 1
+		}
+		wrong := 1 - trueSucc
+		if !le {
+			wrong = trueSucc
+		}
+		return from.Succs[wrong] == to
+	}
+	var possible func(v ssa.Value, le bool, depth int, seen map[ssa.Value]bool) (map[string]bool, bool)
+	possible = func(v ssa.Value, le bool, depth int, seen map[ssa.Value]bool) (map[string]bool, bool) {
+		if depth > 6 || seen[v] {
+			return nil, false
+		}
+		seen[v] = true
+		defer delete(seen, v)
+		switch x := v.(type) {
+		case *ssa.Const:
+			if s, ok := constString(x); ok {
+				return map[string]bool{s: true}, true
+			}
+			return nil, false
+		case *ssa.Phi:
+			out := map[string]bool{}
+			for i, e := range x.Edges {
+				if excluded(x.Block().Preds[i], le) || excludedEdge(x.Block().Preds[i], x.Block(), le) {
+					continue
+				}
+				s, ok := possible(e, le, depth+1, seen)
+				if !ok {
+					return nil, false
+				}
+				for k := range s {
+					out[k] = true
+				}
+			}
+			return out, true
+		case *ssa.Call:
+			f := x.Call.StaticCallee()
+			if f == nil || f.Blocks == nil || f.Pkg != w.Parser || !isStringType(x.Type()) {
+				return nil, false
+			}
+			out := map[string]bool{}
+			any := false
+			for _, b := range f.Blocks {
+				ret, ok := b.Instrs[len(b.Instrs)-1].(*ssa.Return)
+				if !ok || len(ret.Results) != 1 || excluded(b, le) {
+					continue
+				}
+				s, ok := possible(ret.Results[0], le, depth+1, seen)
+				if !ok {
+					return nil, false
+				}
+				any = true
+				for k := range s {
+					out[k] = true
+				}
+			}
+			return out, any
+		case *ssa.UnOp:
+			if al, ok := x.X.(*ssa.Alloc); ok && x.Op == token.MUL && al.Referrers() != nil {
+				out := map[string]bool{}
+				any := false
+				for _, ref := range *al.Referrers() {
+					if st, ok := ref.(*ssa.Store); ok && st.Addr == ssa.Value(al) {
+						if excluded(st.Block(), le) {
+							continue
+						}
+						s, ok := possible(st.Val, le, depth+1, seen)
+						if !ok {
+							return nil, false
+						}
+						any = true
+						for k := range s {
+							out[k] = true
+						}
+					}
+				}
+				return out, any
+			}
+		}
+		return nil, false
+	}
+	n := 0
+	cnt := map[string]int{}
+	for _, lang := range codecLangs {
+		for _, fn := range wc.anchors[lang]["own"] {
+			forEachInstr(fn, func(b *ssa.BasicBlock, ins ssa.Instruction) {
+				st, f := wc.m.stateAt(fn, b)
+				if f == nil || st.isTop() || st.R != 2 {
+					return // not a list-only cell
+				}
+				var pieces []ssa.Value
+				switch x := ins.(type) {
+				case *ssa.Call:
+					callee := x.Call.StaticCallee()
+					if callee == nil {
+						return
+					}
+					idx := -1
+					switch callee.String() {
+					case "fmt.Sprintf":
+						idx = 0
+					case "fmt.Fprintf":
+						idx = 1
+					}
+					if idx < 0 || idx+1 >= len(x.Call.Args) {
+						return
+					}
+					for _, o := range variadicOperands(x.Call.Args[idx+1]) {
+						if o != nil && isStringType(stripIdentity(o).Type()) {
+							pieces = append(pieces, stripIdentity(o))
+						}
+					}
+				case *ssa.BinOp:
+					if x.Op == token.ADD && isStringType(x.Type()) {
+						pieces = append(pieces, x.X, x.Y)
+					}
+				default:
+					return
+				}
+				for _, p := range pieces {
+					if _, isC := p.(*ssa.Const); isC {
+						continue
+					}
+					sle, ok1 := possible(p, true, 0, map[ssa.Value]bool{})
+					sbe, ok2 := possible(p, false, 0, map[ssa.Value]bool{})
+					if !ok1 || !ok2 {
+						continue
+					}
+					same := len(sle) == len(sbe)
+					var common []string
+					for k := range sle {
+						if sbe[k] {
+							common = append(common, strconv.Quote(k))
+						} else {
+							same = false
+						}
+					}
+					if same {
+						continue // does not depend on the byte order
+					}
+					n++
+					cnt[fnKey(fn)]++
+					key := fmt.Sprintf("%s %s: byte-order flavoured piece #%d of a list emission follows LittleEndian alone", lang, fnKey(fn), cnt[fnKey(fn)])
+					if len(common) == 0 {
+						r.pass(rule, key, w.instrPos(ins), "")
+					} else {
+						sort.Strings(common)
+						r.fail(rule, key, w.instrPos(ins), fmt.Sprintf("with LittleEndian set this piece of the list accessor's name can still be %s, as it is without (with: %v, without: %v): the flavour is dropped under a condition on one of the types involved, so the element count / the elements / the string prefixes of the list are written big-endian while the rest of the message and the other languages are little-endian", strings.Join(common, ", "), sortedBoolKeys(sle), sortedBoolKeys(sbe)))
+					}
+				}
+			})
+		}
+	}
+	r.note("%s: %d byte-order dependent pieces in list cells judged", rule, n)
+}
+
+// C05/key-as-written: a match key reaches the emitted dispatch table as the text the author wrote. The key field may be as wide as
+// u64 (and keys may be strings): a round trip through strconv.Atoi / ParseInt "to normalise the literal" clamps every key above
+// MaxInt64 to the same number, so two table entries collapse and the declared key selects nothing. Decided: no strconv conversion in
+// generator or parse-phase code takes an argument that derives from MatchPair.Key (through trimming, phis, helper parameters).
+func wireKeyAsWritten(w *World, wc *wireCtx, r *Report, prop string) {
+	rule := prop + "/key-as-written"
+	var fromKey func(v ssa.Value, depth int, seen map[ssa.Value]bool) bool
+	fromKey = func(v ssa.Value, depth int, seen map[ssa.Value]bool) bool {
+		v = stripIdentity(v)
+		if depth > 6 || seen[v] {
+			return false
+		}
+		seen[v] = true
+		switch x := v.(type) {
+		case *ssa.UnOp:
+			if fa, ok := x.X.(*ssa.FieldAddr); ok && x.Op == token.MUL {
+				tn, f, _, _ := fieldOf(fa)
+				return tn == "MatchPair" && f == "Key"
+			}
+		case *ssa.Field:
+			tn, f, _, _ := fieldOf(x)
+			return tn == "MatchPair" && f == "Key"
+		case *ssa.Phi:
+			for _, e := range x.Edges {
+				if fromKey(e, depth+1, seen) {
+					return true
+				}
+			}
+		case *ssa.Call:
+			if f := x.Call.StaticCallee(); f != nil && f.Pkg != nil && f.Pkg.Pkg.Path() == "strings" {
+				for _, a := range x.Call.Args {
+					if isStringType(a.Type()) && fromKey(a, depth+1, seen) {
+						return true
+					}
+				}
+			}
+		case *ssa.Parameter:
+			fn := x.Parent()
+			for i, p := range fn.Params {
+				if p != x {
+					continue
+				}
+				for _, g := range w.srcFuncs {
+					found := false
+					forEachInstr(g, func(_ *ssa.BasicBlock, ins ssa.Instruction) {
+						if c, ok := ins.(ssa.CallInstruction); ok && !found && calleeOf(c) == fn && i < len(c.Common().Args) {
+							if fromKey(c.Common().Args[i], depth+1, seen) {
+								found = true
+							}
+						}
+					})
+					if found {
+						return true
+					}
+				}
+			}
+		}
+		return false
+	}
+	var bad []string
+	n := 0
+	for _, fn := range w.srcFuncs {
+		if fn.Pkg != w.Parser && fn.Pkg != w.Model {
+			continue
+		}
+		forEachInstr(fn, func(_ *ssa.BasicBlock, ins ssa.Instruction) {
+			c, ok := ins.(*ssa.Call)
+			if !ok {
+				return
+			}
+			f := c.Call.StaticCallee()
+			if f == nil || f.Pkg == nil || f.Pkg.Pkg.Path() != "strconv" || !(f.Name() == "Atoi" || strings.HasPrefix(f.Name(), "Parse")) || len(c.Call.Args) == 0 {
+				return
+			}
+			n++
+			if fromKey(c.Call.Args[0], 0, map[ssa.Value]bool{}) {
+				bad = append(bad, fmt.Sprintf("%s in %s (%s)", f.Name(), fnKey(fn), w.instrPos(c)))
+			}
+		})
+	}
+	key := "no numeric conversion of a match key between the DSL and the emitted table"
+	if len(bad) == 0 {
+		r.pass(rule, key, "internal/parser", fmt.Sprintf("%d strconv conversions examined, none of a MatchPair.Key", n))
+	} else {
+		sort.Strings(bad)
+		r.fail(rule, key, "internal/parser", "a match key goes through "+strings.Join(bad, "; ")+": keys above the conversion's range (a u64 key field holds up to 18446744073709551615) are clamped to one value, string keys become 0 - the emitted table no longer maps the declared key to its packet")
 	}
 }
